@@ -114,6 +114,12 @@ where
 
     let mut result = smallvec![];
     for t in roots.into_iter() {
+        // A root that is well outside the curve cannot be a hit (the end points only have 0.01 of slop), and refining it with a few Newton-Raphson
+        // steps could drag it into the range of the curve before it has converged, which would report a point that is not on the line
+        if !(t > -0.1 && t < 1.1) {
+            continue;
+        }
+
         // The solvers are approximate: refine the root against the polynomial
         let t = polish_root(p, t);
 
